@@ -557,18 +557,25 @@ fgs!(stream_matches_from_grids_o8, 8, 1);
 // integer streams: every u8 / u16 sample of the stream is the correctly rounded and clamped float sample of from_grids
 // (rounding itself: fb.copy_from_f32_u8 / _u16). Channel 0 is declared 8-bit, channel 1 16-bit, so for either sample type
 // one channel takes the same-depth fast path of copy_from_grid and the other the generic path.
-fn stream_int_for<S: FrameBufferSample + PartialEq + Copy>(o: u32, k: usize, sentinel: S) {
-    let v0: [f32; G0W * G0H] = kani::any();
-    let v1: [f32; G1W * G1H] = kani::any();
-    let b0 = grid_f32(G0W, G0H, &v0);
-    let b1 = grid_f32(G1W, G1H, &v1);
+fn stream_int_for<S: FrameBufferSample + PartialEq + Copy, const CW: usize, const CH: usize, const N0: usize, const N1: usize, const NSAMP: usize>(
+    o: u32,
+    k: usize,
+    sentinel: S,
+) {
+    // copy region CW x CH; channel 0: (CW+1) x (CH+1) grid padded by one column / row on the left / top;
+    // channel 1: CW x CH grid starting one column to the RIGHT of the copy origin (its first column reads 0)
+    assert!(N0 == (CW + 1) * (CH + 1) && N1 == CW * CH && NSAMP == CW * CH * 2);
+    let v0: [f32; N0] = kani::any();
+    let v1: [f32; N1] = kani::any();
+    let b0 = grid_f32(CW + 1, CH + 1, &v0);
+    let b1 = grid_f32(CW, CH, &v1);
     let (left, top): (i32, i32) = (kani::any(), kani::any());
     kani::assume(-ORIGIN_MAX <= left && left <= ORIGIN_MAX && -ORIGIN_MAX <= top && top <= ORIGIN_MAX);
-    let copy = Region { left, top, width: W as u32, height: H as u32 };
-    let r0 = Region { left: left - 1, top: top - 1, width: G0W as u32, height: G0H as u32 };
-    let r1 = Region { left: left + 1, top, width: G1W as u32, height: G1H as u32 };
+    let copy = Region { left, top, width: CW as u32, height: CH as u32 };
+    let r0 = Region { left: left - 1, top: top - 1, width: CW as u32 + 1, height: CH as u32 + 1 };
+    let r1 = Region { left: left + 1, top, width: CW as u32, height: CH as u32 };
     let fb = FrameBuffer::from_grids(&[&b0, &b1], &[D8, D16], &[r0, r1], copy, o);
-    let (ow, oh) = spec_oriented_dims(o, W as i64, H as i64);
+    let (ow, oh) = spec_oriented_dims(o, CW as i64, CH as i64);
     let mut s = ImageStream {
         orientation: o,
         width: ow as u32,
@@ -581,15 +588,15 @@ fn stream_int_for<S: FrameBufferSample + PartialEq + Copy>(o: u32, k: usize, sen
         x: 0,
         c: 0,
     };
-    let mut out = [sentinel; NS];
-    assert!(k <= NS);
+    let mut out = [sentinel; NSAMP];
+    assert!(k <= NSAMP);
     let n1 = s.write_to_buffer(&mut out[..k]);
     let n2 = s.write_to_buffer(&mut out[k..]);
-    assert!(n1 == k && n2 == NS - k, "[C15] the stream delivers width*height*channels samples in total");
+    assert!(n1 == k && n2 == NSAMP - k, "[C15] the stream delivers width*height*channels samples in total");
     // every sample, one assertion each (concrete index: both sides are then the same rounding of the same grid read, which the
     // solver closes structurally; ONE symbolic index needs a 12-way multiplexer in front of a float multiplier: u16 > 1200 s)
     let mut i = 0;
-    while i < NS {
+    while i < NSAMP {
         let mut e = S::default();
         e.copy_from_f32(fb.buf()[i]);
         assert!(out[i] == e, "[C15] integer stream sample i == the float sample i of from_grids, rounded and clamped (copy_from_f32)");
@@ -597,7 +604,7 @@ fn stream_int_for<S: FrameBufferSample + PartialEq + Copy>(o: u32, k: usize, sen
     }
     let (mut seen0, mut seen1) = (false, false);
     let mut i = 0;
-    while i < NS {
+    while i < NSAMP {
         if out[i] != sentinel && out[i] != S::default() {
             if i % 2 == 0 { seen0 = true } else { seen1 = true }
         }
@@ -613,11 +620,12 @@ fn stream_int_for<S: FrameBufferSample + PartialEq + Copy>(o: u32, k: usize, sen
 #[kani::unwind(14)]
 #[kani::stub(std::vec::Vec::reserve, no_reserve)]
 fn stream_u8_matches_from_grids_o7() {
-    stream_int_for::<u8>(7, 5, 0xAA);
+    stream_int_for::<u8, 3, 2, 12, 6, 12>(7, 5, 0xAA);
 }
+// u16: 2x1 copy region (the 16-bit rounding is ~50x harder for the solver than the 8-bit one: 3x2 needs 660 s)
 #[kani::proof]
 #[kani::unwind(14)]
 #[kani::stub(std::vec::Vec::reserve, no_reserve)]
-fn stream_u16_matches_from_grids_o4() {
-    stream_int_for::<u16>(4, 8, 0xAAAA);
+fn stream_u16_matches_from_grids_o8() {
+    stream_int_for::<u16, 2, 1, 6, 2, 4>(8, 3, 0xAAAA);
 }
